@@ -334,6 +334,15 @@ theorem gen_pinned_later_is_dropped (q : Nat × Nat × Nat × Nat × Nat) (hq : 
   rw [hr]
   exact introduced_range_contains _ _
 
+/-- 5f. **independent of the pinned table** (which was first produced from the annotations, then reviewed): KMIP
+    numbers tags and operation codes chronologically (1.0: … 0x4200A1, 1.1: … 0x4200B7, 1.2: … 0x4200D3,
+    1.3: … 0x4200F7, 1.4 after; operations 1.0: … 0x1C, 1.1: … 0x1E, 1.2: … 0x29, 1.4 after). In the regenerated
+    schema NO field whose tag is younger than its structure (the structure's own tag, or the operation of the
+    payload) lacks a range starting at the tag's version or later: a later element placed in an older structure
+    without annotation — the kind of omission a table derived from the annotations could not reveal — fails here.
+    (Older tags re-used in a new place — 4 of the 61 rows — are beyond this check and rest on the review.) -/
+theorem gen_chronology_consistent : lateUngated Gen.schema = [] := by decide +kernel
+
 /-! ### non-vacuity -/
 
 /-- the table is not empty and every row names a version 1.1 … 1.4 (so "below 1.0 everything goes, from 1.4
@@ -353,6 +362,16 @@ example : gatingMatchesPos ((0x42000C, 0x420023, 0, 1, 2) ::
     Pinned.introduced.filter (fun q => q.1 != 0x42000C)) Gen.schema = false := by decide +kernel
 /-- … and the row of Authentication really is at occurrence 1. -/
 example : (0x42000C, 0x420023, 1, 1, 2) ∈ Pinned.introduced := by decide +kernel
+
+/-- 5f is not vacuous: 57 of the 61 pinned rows gate an element at exactly the version that created its tag, and
+    the check does fire on a schema in which ClientCorrelationValue (a 1.4 tag in the 1.0 request header) has
+    lost its annotation. -/
+example : (Pinned.introduced.filter (fun q => tagVer q.2.1 == (q.2.2.2.1, q.2.2.2.2))).length + 4
+    = Pinned.introduced.length := by decide +kernel
+example : lateUngated { Gen.schema with structs := Gen.schema.structs.map fun d =>
+    if d.defTag = T.requestHeader then
+      { d with fields := d.fields.map fun f => if f.tag = 0x420105 then { f with vrange := none } else f }
+    else d } ≠ [] := by decide +kernel
 
 /-- the RequestHeader of the current schema (found by its tag, not by its id). -/
 def requestHeaderDef : StructDef :=
